@@ -125,10 +125,17 @@ func runCheck(propID, repo, verif, tier string, verbose bool) int {
 		}
 	}
 	var units []*Unit
+	var quickAssumed []string
 	for _, k := range prop.Functions {
 		mode := "nosafety"
 		if prop.Safety {
 			mode = ""
+		}
+		if fc := p.Contracts[expandKey(p, k)]; fc != nil && fc.TrustedQuick != "" && tier != "thorough" {
+			// proved in the thorough tier only (its obligations are too close to the quick time-out);
+			// here its contract is an assumption and its bounded stand-in runs
+			quickAssumed = append(quickAssumed, shortKey(expandKey(p, k)))
+			continue
 		}
 		units = append(units, p.verifyFunc(expandKey(p, k), mode))
 	}
@@ -493,6 +500,9 @@ func runCheck(propID, repo, verif, tier string, verbose bool) int {
 		}
 		sort.Strings(ks)
 		assumptions = append(assumptions, "calls without contract were havocked (all heaps and results unknown; can only make proofs fail): "+strings.Join(ks, ", "))
+	}
+	if len(quickAssumed) > 0 {
+		assumptions = append(assumptions, "proved in the thorough tier only; in this (quick) run their contracts are assumptions checked by their bounded stand-ins: "+strings.Join(quickAssumed, ", "))
 	}
 	for _, nd := range prop.NotDecided {
 		assumptions = append(assumptions, "not decided by this check: "+nd)
